@@ -177,6 +177,9 @@ type Server struct {
 	index  int
 	start  time.Time
 	fired  map[string]int
+	// OnRequest, when set, runs when a request arrives, before anything else
+	// (the harness uses it to end the caller's context at a chosen request).
+	OnRequest func()
 }
 
 // New creates a server over the given zones (not copied).
@@ -350,6 +353,9 @@ func (s *Server) RoundTrip(req *http.Request) (*http.Response, error) {
 		req.Body.Close()
 	}
 
+	if h := s.OnRequest; h != nil {
+		h()
+	}
 	s.mu.Lock()
 	e := &Entry{Seq: len(s.log), Epoch: s.epoch, Index: s.index, Method: req.Method, Path: req.URL.Path, Query: canonQuery(req.URL.Query()), Body: string(body), Auth: req.Header.Get("Authorization")}
 	s.index++
